@@ -311,6 +311,24 @@ def _blocks_calling(body, *names):
     return {c.bb for c in body.calls() if c.is_(*names)}
 
 
+def claim_ok_edge(b, claim):
+    """(switch block, target on which the claim succeeded, target on which it failed) for `claim(..)?`,
+    `claim(..).ok_or(..)?` and `let Some(x) = claim(..) else {..}` / `match` / `if let`."""
+    tr = q.ok_edge_of_try(b, claim)
+    if tr is None:
+        for c in b.calls():
+            if c.is_("Option::ok_or", "Option::ok_or_else") and (op_place(c.args[0]) or {}).get("l") == claim.dest["l"]:
+                tr = q.ok_edge_of_try(b, c)
+    if tr is None:
+        pr = Prov(b)
+        for cd in q.conds(b):
+            if cd.kind == "discr" and "Option" in (cd.enum_ty or "") and any(x[0] == "call" and x[2] == claim.bb for x in pr.of_operand({"copy": cd.place}) if len(x) > 2):
+                vt = cd.variant_targets(b.prog)
+                if vt.get("Some") is not None:
+                    tr = (cd.bb, vt.get("Some"), vt.get("None"))
+    return tr
+
+
 def s4(prog, rep, P, tag="", parts=("mark_sendable", "receive_frame", "mark_received", "poll", "send_blocking")):
     """Publish-after-write orderings."""
     if "send_blocking" in parts:
@@ -351,13 +369,7 @@ def s4(prog, rep, P, tag="", parts=("mark_sendable", "receive_frame", "mark_rece
         ok = len(claim) == 1 and len(cp) == 1 and len(mr) == 1 and len(bm) >= 1
         d = ""
         if ok:
-            # Option `?` / ok_or + `?`
-            tr = q.ok_edge_of_try(b, claim[0])
-            if tr is None:
-                # claim -> ok_or(..) -> Try::branch
-                for c in b.calls():
-                    if c.is_("Option::ok_or", "Option::ok_or_else") and (op_place(c.args[0]) or {}).get("l") == claim[0].dest["l"]:
-                        tr = q.ok_edge_of_try(b, c)
+            tr = claim_ok_edge(b, claim[0])
             okedge = tr is not None and tr[1] is not None
             dom = q.edge_dominated(b, tr[0], tr[1]) if okedge else set()
             c1 = okedge and all(x.bb in dom for x in bm + cp + mr)
